@@ -11,6 +11,8 @@ RO = 2560          # result values in vals
 VA_BUF = 1984      # va_list placed in outs when not alloca'ed
 VAO = 1920         # copy of the va_list right after va_start
 NPRESS = 22
+NLEAF = 26        # live integers of a leafalloca body (press has NLEAF entries there)
+LAN = PO + 8 * 28   # variable alloca size of a leafalloca body in vals
 CO = 4096          # argument values of the nested call of an xcall body in vals
 FO = 5120          # fp pressure values of an xcall body in vals
 XR = XO + 256      # results of the nested call of an xcall body in outs
@@ -69,6 +71,33 @@ def c06_mir(proto, body):
         for k in range(NPRESS):
             loc.append('d:q%d' % k)
             B.append('dmov q%d, d:%d(v)' % (k, PO + 8 * k))
+    if kind == 'leafalloca':
+        # a LEAF function (no call, nothing lowered to a builtin call) that executes alloca while nlive integers and
+        # nlived doubles are live: spill slots + saved callee-saved registers take both parities over nlive x level
+        mode = body.get('lamode', 'const')
+        loc += ['i64:ap5', 'i64:ap6']
+        if mode in ('var', 'both', 'late'):
+            B.append('mov an, i64:%d(v)' % LAN)
+        if mode != 'late':
+            B.append('alloca ap, an' if mode in ('var', 'both') else 'alloca ap, %d' % body.get('lasize', 48))
+        for k in range(body['nlive']):
+            loc.append('i64:p%d' % k)
+            B.append('mov p%d, i64:%d(v)' % (k, PO + 8 * k))
+        for k in range(body.get('nlived', 0)):
+            loc.append('d:q%d' % k)
+            B.append('dmov q%d, d:%d(v)' % (k, FO + 8 * k))
+        if mode == 'late':     # the first alloca while everything is live already
+            B.append('alloca ap, an')
+        B.append('mov i64:0(ap), 81985529216486895')
+        B.append('and am, ap, 15')
+        B.append('mov i64:%d(o), am' % (XO + 8))
+        if mode in ('both', 'late'):   # a second block, constant size, allocated while everything is live
+            B.append('alloca ap5, %d' % body.get('lasize', 48))
+        else:
+            B.append('mov ap5, ap')
+        B.append('mov i64:8(ap5), 1311768467463790320')
+        B.append('and am, ap5, 15')
+        B.append('mov i64:%d(o), am' % (XO + 16))
     if kind == 'xcall':
         for k in range(body['ni']):
             loc.append('i64:p%d' % k)
@@ -266,6 +295,23 @@ def c06_mir(proto, body):
                 B.append('add s, s, p%d' % k)
                 B.append('lsh s, s, 1')
         B.append('mov i64:%d(o), s' % XO)
+    if kind == 'leafalloca':
+        B.append('mov s, i64:0(ap)')
+        for rnd in range(2):
+            for k in range(body['nlive']):
+                B.append('add s, s, p%d' % k)
+                B.append('lsh s, s, 1')
+        B.append('add s, s, i64:8(ap5)')
+        B.append('mov i64:%d(o), s' % XO)
+        B.append('dmov dz, d:%d(v)' % (FO + 8 * 30))
+        for k in range(body.get('nlived', 0)):
+            B.append('dadd dz, dz, q%d' % k)
+        B.append('dmov d:%d(o), dz' % (XO + 24))
+        if body.get('lamode') == 'var':   # one more block at the end: the stack pointer after the first alloca is aligned too
+            B.append('alloca ap6, an')
+            B.append('mov u8:0(ap6), 1')
+            B.append('and am, ap6, 15')
+            B.append('mov i64:%d(o), am' % (XO + 32))
     if kind == 'fppress':
         B.append('call hp, helper, h, 5, 7')
         B.append('dmov dz, q0')
@@ -432,13 +478,38 @@ def va_plan_kind(proto, body):
 
 
 def gen_body(rng):
-    kind = rng.choice(['plain', 'plain', 'pressure', 'pressure', 'alloca', 'alloca', 'fppress', 'call', 'leafpress', 'leafpress', 'inl'])
-    return dict(kind=kind, nlive=rng.randint(6, 14), alloca_k=rng.choice([8, 24, 40, 100, 1, 17, 333, 32]),
+    kind = rng.choice(['plain', 'plain', 'pressure', 'pressure', 'alloca', 'alloca', 'fppress', 'call', 'leafpress', 'leafpress', 'inl',
+                       'leafalloca'])
+    return dict(kind=kind, lamode=rng.choice(['const', 'var', 'both', 'late']), nlived=rng.choice([0, 0, 5, 18]), lan=rng.choice([1, 16, 17, 40, 100]), nlive=rng.randint(6, 14), alloca_k=rng.choice([8, 24, 40, 100, 1, 17, 333, 32]),
                 msizes=[rng.choice([1, 2, 3, 4, 5, 8, 12, 16, 17, 24]) for _ in range(rng.choice([0, 2, 3, 5, 6]))], bstart=rng.random() < 0.5, va_alloca=rng.random() < 0.5, alloca_n=rng.choice([1, 8, 15, 16, 17, 100, 333]),
                 press=[rng.getrandbits(64) for _ in range(NPRESS)],
                 fpress=[float(rng.randint(-1000, 1000)) for _ in range(NPRESS)],
                 mxcsr=rng.choice([0x1f80, 0x1f80, 0x3f80, 0x5f80, 0x7f80, 0x9fc0]),
                 fcw=rng.choice([0x037f, 0x037f, 0x027f, 0x0f7f, 0x0b7f]))
+
+
+def leafalloca_bodies(rng, quick):
+    """[(body, engines)]: nlive = 1..24 x every generator level (spill slots + saved registers of both parities), constant /
+    variable / both / late allocas, with and without live doubles"""
+    out = []
+    levels = ['gen0', 'gen1', 'gen2', 'gen3']
+    def mk(nl, nd, mode):
+        b = gen_body(rng)
+        b.update(kind='leafalloca', nlive=nl, nlived=nd, lamode=mode, lasize=rng.choice([8, 16, 24, 40, 48, 100, 1, 33]),
+                 lan=rng.choice([1, 8, 15, 16, 17, 40, 41, 100, 333]), press=[rng.getrandbits(64) for _ in range(NLEAF)],
+                 fpress=[float(rng.randint(-1000, 1000)) for _ in range(NPRESS)])
+        return b
+    for nl in range(1, 25):
+        modes = ['const', 'var', 'both', 'late']
+        if quick:
+            rng.shuffle(modes)
+            out.append((mk(nl, 0, modes[0]), levels))
+            out.append((mk(nl, rng.choice([0, 0, 3, 9, 17, 20]), modes[1]), [rng.choice(levels), rng.choice(['lazy', 'lazybb', 'interp'])]))
+        else:
+            for mode in modes:
+                for nd in (0, 3, 17, 20):
+                    out.append((mk(nl, nd, mode), levels + ['lazy', 'lazybb', 'interp']))
+    return out
 
 
 XCALL_RES = [[], ['i64'], ['d'], ['i64', 'd'], ['ld'], ['u8', 'f'], ['i32', 'i64']]
@@ -525,6 +596,14 @@ def res_values(rng, proto):
 def vals_buffer(proto, body, resvals):
     import struct
     buf = bytearray(PO + 8 * NPRESS + 64)
+    if body['kind'] == 'leafalloca':
+        buf = bytearray(FO + 8 * 32)
+        for k, x in enumerate(body['press']):
+            buf[PO + 8 * k:PO + 8 * k + 8] = x.to_bytes(8, 'little')
+        for k, x in enumerate(body['fpress']):
+            buf[FO + 8 * k:FO + 8 * k + 8] = struct.pack('<d', x)
+        buf[FO + 8 * 30:FO + 8 * 31] = struct.pack('<d', 1.0)
+        buf[LAN:LAN + 8] = body.get('lan', 40).to_bytes(8, 'little')
     if body['kind'] == 'xcall':
         buf = bytearray(FO + 8 * 32)
         for k, x in enumerate(body['press']):
@@ -735,6 +814,27 @@ def compare_c06(proto, body, m, impl, vals, resvals, rblk_ptrs, engine='gen'):
                 mx = dict(mx, img=[x for x in mx['img'] if x[0][0] != 'S'])
             bad += ['call made by the function (%s): %s' % (G.proto_sig(cp), b)
                     for b in G.compare_c05(cp, mx, dict(status='ok', img=img + bytes(256 + G.NSTK - len(img)), outs=outs[XR:XR + 128]), crets)]
+    if kind == 'leafalloca':
+        import struct
+        M = (1 << 64) - 1
+        a1 = int.from_bytes(outs[XO + 8:XO + 16], 'little')
+        a2 = int.from_bytes(outs[XO + 16:XO + 24], 'little')
+        a3 = int.from_bytes(outs[XO + 32:XO + 40], 'little') if body.get('lamode') == 'var' else 0
+        if a1 or a2 or a3:
+            bad.append('alloca memory of a leaf function with %d+%d live values (%s size) not 16-byte aligned (addr mod 16 = %d, %d, %d)'
+                       % (body['nlive'], body.get('nlived', 0), body.get('lamode', 'const'), a1, a2, a3))
+        want = 81985529216486895
+        for rnd in range(2):
+            for k in range(body['nlive']):
+                want = ((want + body['press'][k]) << 1) & M
+        want = (want + 1311768467463790320) & M
+        got = int.from_bytes(outs[XO:XO + 8], 'little')
+        if got != want:
+            bad.append('leaf function with alloca: checksum of %d live integers and the alloca contents wrong: %x, expected %x' % (body['nlive'], got, want))
+        dgot = struct.unpack('<d', outs[XO + 24:XO + 32])[0]
+        dwant = 1.0 + sum(body['fpress'][:body.get('nlived', 0)])
+        if dgot != dwant:
+            bad.append('leaf function with alloca: sum of %d live doubles wrong: %r, expected %r' % (body.get('nlived', 0), dgot, dwant))
     if kind == 'leafpress':
         got = int.from_bytes(outs[XO:XO + 8], 'little')
         if got != leaf_sum(body):
